@@ -4,7 +4,7 @@ from . import agentsim as S
 PROP  = 'C04'
 KNOBS = {'max_tasks': 12, 'cancel_prob': 0.5, 'named_env_share': 0.1,
          'bad_ranks_share': 0.05, 'tag_share': 0.1, 'fail_share': 0.0,
-         'preempt': 0.01, 'partition_share': 0.08}
+         'preempt': 0.01, 'partition_share': 0.08, 'preplaced_share': 0.1}
 
 
 def _nontrivial(sc, res):
